@@ -9,7 +9,7 @@ configurations), each loaded through Config.load, on two trajectories:
           of the repository's tests (has an APU).
 thorough: the whole product on both trajectories, sharded by configuration
 index (exhaustive).  quick: a pairwise-covering array of the options on both
-trajectories plus Hypothesis-drawn configurations.
+trajectories plus 1500 Hypothesis-drawn (configuration, trajectory) pairs.
 
 Oracle per (configuration, trajectory): the outcome is (A) an Emissions value
 that satisfies the C01 balance oracle and in which every switched-off species
@@ -67,8 +67,9 @@ def check_one(ctx, cfg: dict, which: str, enumerated: bool, memo: dict | None):
     ctx.case(case)
     inp = inputs(which)
     if inp is None:
-        ctx.label('skipped.simulation_unavailable')
-        return
+        raise core.HarnessError(
+            'the simulated trajectory of the C11 domain is not available (legacy builder failed on sample mission 0 '
+            'or produced an increasing fuel mass); see C02')
     out = ec.evaluate(inp, cfg, check_off=True)
     ctx.label(f'traj.{which}')
     nd = ec.n_nondefault(cfg)
@@ -122,7 +123,7 @@ def run(ctx: core.Ctx):
             def body(c):
                 check_one(ctx, c[0], c[1], enumerated=False, memo=None)
 
-            core.run_given(ctx, strat, body, max_examples=300)
+            core.run_given(ctx, strat, body, max_examples=1500)
         else:
             for i in range(ec.N_CONFIGS):
                 if i % ctx.nshards != ctx.shard:
